@@ -1125,6 +1125,9 @@ func mustFollow(from ssa.Instruction, pred func(ssa.Instruction) bool, until fun
 type Guard struct {
 	Name  string
 	Match func(w *World, f *ssa.Function, a Atom) bool
+	// Split: the guard also holds where every one of these holds (an equality established by two
+	// opposite inequalities, possibly at different places on the path).
+	Split []Guard
 }
 
 // guardRe builds a guard from a regexp over atom strings.
@@ -1248,6 +1251,19 @@ func (ge *guardEnv) guardedLocal(f *ssa.Function, target ssa.Instruction, g Guar
 // guardedLocalX: as guardedLocal; extra lists edges that cannot lie on a path of interest (e.g. the
 // edge on which the returned error is known non-nil, when only success returns are of interest).
 func (ge *guardEnv) guardedLocalX(f *ssa.Function, target ssa.Instruction, g Guard, depth int, extra map[Edge]bool) (bool, []*ssa.BasicBlock) {
+	ok, path := ge.guardedLocalX1(f, target, g, depth, extra)
+	if ok || len(g.Split) == 0 {
+		return ok, path
+	}
+	for _, part := range g.Split {
+		if okp, _ := ge.guardedLocalX1(f, target, part, depth, extra); !okp {
+			return false, path
+		}
+	}
+	return true, nil
+}
+
+func (ge *guardEnv) guardedLocalX1(f *ssa.Function, target ssa.Instruction, g Guard, depth int, extra map[Edge]bool) (bool, []*ssa.BasicBlock) {
 	if target.Parent() != f {
 		// the instruction lives in a transparent helper under f: the guard may hold at any level of the chain
 		chain := siteChain(f, target)
